@@ -336,6 +336,66 @@ def main(args):
                          "class_from_$schema": False, "format_checker": False}
             kinds["invalid-schema"] += 1
             ck.count((d, repr(bad), "after twin"), True)
+    # one schema object, first checked (and found well-formed) under one class, then offered under a class for which
+    # it is ill-formed: the schema check is that of the class asked, every time
+    cross = [({"required": ["a"]}, 4, 3), ({"exclusiveMinimum": 1, "minimum": 0}, 7, 4), ({"type": "any"}, 3, 4),
+             ({"items": True}, 6, 4), ({"dependencies": {"a": "b"}}, 3, 7)]
+    for S, d_ok, d_bad in cross:
+        if c11.classify_check_schema(d_ok, S)[0] != "ok" or c11.classify_check_schema(d_bad, S)[0] == "ok":
+            continue
+        rid += 1
+        cls = _CLS[d_bad]
+        for inst in ({}, 5, [1]):
+            try:
+                _JS.validate(inst, S, cls=_CLS[d_ok])
+            except _JS.exceptions.ValidationError:
+                pass
+        spy = Spy()
+        J = spy.wrap({"a": [1]})
+        first = next(cls(cls.META_SCHEMA).iter_errors(S), None)
+        rec = {"id": rid, "kind": "invalid-schema", "cs": raised(lambda: cls.check_schema(S)), "csv": raised_with_values(lambda: cls.check_schema(S)),
+               "mfv": _vals(first), "mrv": raised_with_values(lambda: _JS.validate(J, S, cls=cls)),
+               "mf": {"k": "err", "e": errrec.obs_err(first)},
+               "mr": raised(lambda: _JS.validate(J, S, cls=cls)), "mr2": raised(lambda: _JS.validate(J, S, cls=cls)), "spy": spy.n}
+        for f in ("mr", "mr2", "cs"):
+            rec[f].pop("what", None)
+        recs.append(rec)
+        real[rid] = {"draft": d_bad, "schema": S, "history": "the same schema object was first validated against under Draft %d" % d_ok,
+                     "instance": {"a": [1]}, "class_from_$schema": False, "format_checker": False}
+        kinds["invalid-schema"] += 1
+        ck.count((d_bad, repr(S), "after draft %d" % d_ok), True)
+    # classes obtained from extend() with a type checker of their own ("array" admits tuples): every entry point, the
+    # schema check included, is the class's own
+    import jsonschema.validators as V
+    for d in DRAFTS:
+        base = _CLS[d]
+        ext = V.extend(base, type_checker=base.TYPE_CHECKER.redefine("array", lambda c, x: isinstance(x, (list, tuple))))
+        fam = [({"type": ("string", "null")}, 3), ({"enum": (1, 2)}, 3), ({"items": ({"type": "integer"}, {"type": "string"})}, (1, 2)),
+               ({"enum": (1, 2)}, 1)]
+        if d >= 4:
+            fam += [({"required": ("a", "b")}, {"a": 1}), ({"allOf": ({"type": "integer"}, {"minimum": 3})}, 1.5)]
+        for S, I in fam:
+            rid += 1
+            try:
+                v = ext(S)
+                e1 = list(v.iter_errors(I))
+                rec = {"id": rid, "kind": "valid-schema", "iv1": v.is_valid(I), "iv2": v.is_valid(I),
+                       "e1": [errrec.obs_err(e) for e in e1], "e2": [errrec.obs_err(e) for e in v.iter_errors(I)],
+                       "vr": raised(lambda: v.validate(I)), "mr": raised(lambda: _JS.validate(I, S, cls=ext)),
+                       "mr2": raised(lambda: _JS.validate(I, S, cls=ext))}
+                b = _JS.exceptions.best_match(ext(S).iter_errors(I))
+                rec["bm"] = {"k": "none", "e": _null_err()} if b is None else {"k": "err", "e": errrec.obs_err(b)}
+                for f in ("vr", "mr", "mr2"):
+                    rec[f].pop("what", None)
+            except Exception as e:  # noqa
+                ck.violation("raises_on_extended_class", {"draft": d, "schema": repr(S), "instance": repr(I),
+                                                          "exception": "%s: %s" % (type(e).__name__, str(e)[:100])})
+                continue
+            recs.append(rec)
+            real[rid] = {"draft": d, "class": "extend(Draft%dValidator, type_checker=<arrays admit tuples>)" % d, "schema": repr(S),
+                         "instance": repr(I), "class_from_$schema": False, "format_checker": False}
+            kinds["valid-schema"] += 1
+            ck.count((d, repr(S), repr(I), "extended"), True)
     ck.notes["records_by_kind"] = kinds
     bad, states = tlc.validate_trace("trace/Trace_C04.tla", recs, "c04", shards=16)
     ck.states += states
